@@ -149,6 +149,14 @@ impl HeaderPrefix {
         } else {
             let mut insert_count = self.encoded_insert_count - 1;
             let max_entries = max_table_size / 32;
+            // A table that cannot hold a single entry has no valid non-zero count, and an
+            // encoded count outside the range or too far from the number of insertions seen so
+            // far cannot be reconstructed: these are errors, not arithmetic to carry out.
+            let invalid =
+                || ParseError::Integer(crate::qpack::prefix_int::Error::Overflow);
+            if max_entries == 0 || self.encoded_insert_count > 2 * max_entries {
+                return Err(invalid());
+            }
             let mut wrapped = total_inserted % (2 * max_entries);
 
             if wrapped >= insert_count + max_entries {
@@ -157,7 +165,9 @@ impl HeaderPrefix {
                 wrapped += 2 * max_entries;
             }
 
-            insert_count + total_inserted - wrapped
+            (insert_count + total_inserted)
+                .checked_sub(wrapped)
+                .ok_or_else(invalid)?
         };
 
         let base = if required == 0 {
